@@ -1,5 +1,5 @@
 import LibInj.Proofs.Tables
-import LibInj.Proofs.WhitelistOK
+import LibInj.Proofs.FpTable
 import LibInj.Properties.C12
 import LibInj.Properties.C01
 set_option linter.unusedSimpArgs false
@@ -103,102 +103,20 @@ theorem verdict_fp_consistent_partial (s : Bytes) (b : Bool) (f : Bytes) (h : is
     obtain ⟨rfl, rfl⟩ := h
     simp
 
-set_option maxRecDepth 200000 in
-theorem kw_wf : Gen.keywords.all kwOK = true := by decide +kernel
-
-set_option maxRecDepth 200000 in
-theorem kw_comment : Gen.keywords.all commentOnlyLast = true := by decide +kernel
+theorem kw_wf : Gen.keywords.all kwOK = true := LibInj.Sqli.kw_wf
+theorem kw_comment : Gen.keywords.all commentOnlyLast = true := LibInj.Sqli.kw_comment
 
 /-- table fact: a key with class `F` is `0` followed by 1..5 upper-cased class characters, the
 comment class only in last position (`kwOK`, `commentOnlyLast` of C20, restated for the matched key) -/
 theorem blacklisted_key_shape (l n : Nat) (h : lookupKw l n = some 70) :
-    2 ≤ l ∧ l ≤ 6 ∧ fpBytes (l - 1) n = true ∧ noByte 67 (l - 1) (n / 256) = true := by
-  have hm := lookupIn_some_mem _ _ _ _ h
-  have h1 := List.all_eq_true.mp LibInj.Properties.C08.kw_wf _ hm
-  have h2 := List.all_eq_true.mp LibInj.Properties.C08.kw_comment _ hm
-  simp only [kwOK, Bool.and_eq_true, Bool.or_eq_true, Bool.not_eq_true', Nat.ble_eq] at h1
-  simp only [commentOnlyLast, Bool.or_eq_true, Bool.not_eq_true'] at h2
-  have e70 : Nat.beq 70 70 = true := rfl
-  obtain ⟨⟨_, hfp⟩, _⟩ := h1
-  rcases hfp with hfp | hfp
-  · simp [e70] at hfp
-  · rcases h2 with h2 | h2
-    · simp [e70] at h2
-    · exact ⟨hfp.1.1, hfp.1.2, hfp.2, h2⟩
-
-theorem keyNat_snoc (w : Bytes) (c : UInt8) : keyNat (w ++ [c]) = keyNat w * 256 + c.toNat := by
-  simp [keyNat, List.foldl_append]
-
-theorem fpBytes_keyNat_rev : ∀ (r : Bytes), fpBytes r.length (keyNat (48 :: r.reverse)) = true →
-    ∀ u ∈ r, isClassUpper u.toNat = true
-  | [], _, u, hu => by cases hu
-  | c :: r', h, u, hu => by
-    have hc : c.toNat < 256 := c.toNat_lt
-    have e : (48 : UInt8) :: (c :: r').reverse = (48 :: r'.reverse) ++ [c] := by simp
-    rw [e, keyNat_snoc] at h
-    simp only [List.length_cons, fpBytes, Bool.and_eq_true] at h
-    have e1 : (keyNat (48 :: r'.reverse) * 256 + c.toNat) % 256 = c.toNat := by omega
-    have e2 : (keyNat (48 :: r'.reverse) * 256 + c.toNat) / 256 = keyNat (48 :: r'.reverse) := by omega
-    rw [e1, e2] at h
-    rcases List.mem_cons.mp hu with rfl | hu
-    · exact h.1
-    · exact fpBytes_keyNat_rev r' h.2 u hu
-
-theorem fpBytes_keyNat (us : Bytes) (h : fpBytes us.length (keyNat (48 :: us)) = true) :
-    ∀ u ∈ us, isClassUpper u.toNat = true := by
-  have := fpBytes_keyNat_rev us.reverse (by simpa using h)
-  intro u hu
-  exact this u (by simpa using hu)
-
-/-- a class byte (or 0) whose upper-case image is an upper-cased class character is a class byte -/
-theorem class_of_upper (c : UInt8) (h : c = 0 ∨ isClassU8 c = true) (hu : isClassUpper (upperAscii c).toNat = true) :
-    isClassU8 c = true := by
-  have := forall_byte (fun c => !((c == 0 || isClassU8 c) && isClassUpper (upperAscii c).toNat) || isClassU8 c)
-    (by decide +kernel) c
-  have hc : (c == 0 || isClassU8 c) = true := by
-    rcases h with h | h <;> simp [h]
-  simpa [hc, hu] using this
+    2 ≤ l ∧ l ≤ 6 ∧ fpBytes (l - 1) n = true ∧ noByte 67 (l - 1) (n / 256) = true :=
+  LibInj.Sqli.blacklisted_key_shape l n h
 
 /-- **a blacklisted fingerprint over class-or-0 bytes has 1..5 bytes, all class characters** -/
 theorem blacklisted_alphabet (fp : Bytes) (hcls : ∀ c ∈ fp, c = 0 ∨ isClassU8 c = true)
     (hb : searchKeyword (fpKey fp) = 70) :
-    1 ≤ fp.length ∧ fp.length ≤ 5 ∧ ∀ c ∈ fp, isClassU8 c = true := by
-  have hg : goUpper (fpKey fp) = 48 :: fp.map upperAscii := by
-    unfold fpKey
-    rw [goUpper_plain]
-    · simp only [List.map_cons, List.map_map]
-      congr 1
-      apply List.map_congr_left
-      intro c hc
-      exact (class_upper c (hcls c hc)).2.2
-    · intro x hx
-      rcases List.mem_cons.mp hx with rfl | hx
-      · decide
-      · obtain ⟨c, hc, rfl⟩ := List.mem_map.mp hx
-        exact ⟨(class_upper c (hcls c hc)).1, (class_upper c (hcls c hc)).2.1⟩
-  unfold searchKeyword at hb
-  simp only [hg] at hb
-  cases hl : lookupKw ((48 : UInt8) :: fp.map upperAscii).length (keyNat (48 :: fp.map upperAscii)) with
-  | none => rw [hl] at hb; simp at hb
-  | some v =>
-    rw [hl] at hb
-    simp only [] at hb
-    have hm := lookupIn_some_mem _ _ _ _ hl
-    have hv := List.all_eq_true.mp keywords_valOK _ hm
-    simp only [valOK, Bool.and_eq_true, Nat.blt_eq] at hv
-    have hv128 : v < 128 := hv.1.1.1
-    have hv70 : v = 70 := by
-      have := congrArg UInt8.toNat hb
-      simp at this
-      omega
-    subst hv70
-    obtain ⟨k1, k2, k3, _⟩ := blacklisted_key_shape _ _ hl
-    simp only [List.length_cons, List.length_map] at k1 k2 k3
-    refine ⟨by omega, by omega, ?_⟩
-    have hk : fpBytes (fp.map upperAscii).length (keyNat (48 :: fp.map upperAscii)) = true := by
-      simpa using k3
-    intro c hc
-    exact class_of_upper c (hcls c hc) (fpBytes_keyNat _ hk (upperAscii c) (List.mem_map.mpr ⟨c, hc, rfl⟩))
+    1 ≤ fp.length ∧ fp.length ≤ 5 ∧ ∀ c ∈ fp, isClassU8 c = true :=
+  LibInj.Sqli.blacklisted_alphabet fp hcls hb
 
 /-- the bytes of a computed fingerprint are class characters or 0 -/
 theorem fingerprint_classes (s : Bytes) (F : Nat) (st : State) (h : fingerprint s F = .ok st) :
